@@ -29,7 +29,7 @@ pub fn def03() -> PropDef {
         info: PropInfo {
             id: "C03",
             rule: "same program generator as C01 (independent seed stream), premise filtered by the reference model (terminates, no dependence on undefined state, all accesses in bounds); in a forked child the interpreter and the x86-64 JIT each run from freshly initialised buffers at identical addresses; return value and every byte of packet and metadata buffer must be equal; JIT compile errors/panics, traps and crashes on such programs are violations. Non-trivial = premise holds, >= 1 executed conditional jump, helper call or local call beyond the fixed prologue/epilogue, >= 3 distinct registers of which one in r4-r9; distinct by hash of program+input.",
-            assumptions: &["premise classification by the reference model", "a JIT run that hits the 20 s watchdog is reported as inconclusive (exit 2), not as a violation"],
+            assumptions: &["premise classification by the reference model", "a JIT run that hits the 180 s watchdog is reported as inconclusive (exit 2), not as a violation"],
         },
         run: run03,
         replay: replay03,
@@ -51,6 +51,7 @@ pub fn def04() -> PropDef {
 }
 
 fn classes(st: &mut Stats, case: &ExecCase, t: &Trace) {
+    st.or_bits("opcodes_executed", &t.opcodes);
     st.class(&format!("vm:{}", case.vm.name()));
     if t.back_edges > 0 {
         st.class("back-edge");
